@@ -1157,6 +1157,16 @@ where
             TsType::TsOptionalType(TsOptionalType { type_ann, .. }) => {
                 runtime_types.extend(self.infer_runtime_type(type_ann));
             }
+            // a rest element reached by indexing a tuple (`[string, ...number[]][number]`)
+            // stands for the elements of its array
+            TsType::TsRestType(TsRestType { type_ann, .. }) => match &**type_ann {
+                TsType::TsArrayType(TsArrayType { elem_type, .. }) => {
+                    runtime_types.extend(self.infer_runtime_type(elem_type));
+                }
+                _ => {
+                    runtime_types.insert(None);
+                }
+            },
             _ => {
                 runtime_types.insert(Some(atom!("Object")));
             }
